@@ -1068,6 +1068,58 @@ func TestOversizedUncheckedHeader(t *testing.T) {
 	tally{"open/oversized-unchecked-header/reply-written-and-valid": wrote, "open/oversized-unchecked-header/nothing-written": n - wrote}.flush("")
 }
 
+// The exported package variable wsutil.DefaultWriteBuffer (buffer size of plain
+// Writers) is application configuration: whatever it is set to, every reply is
+// still one final frame with the right content. Runs alone (no test of this
+// package is parallel) and restores the value.
+func TestDefaultWriteBufferSetting(t *testing.T) {
+	rand.Seed(18)
+	saved := wsutil.DefaultWriteBuffer
+	defer func() { wsutil.DefaultWriteBuffer = saved }()
+	type pl struct {
+		op byte
+		p  []byte
+	}
+	var payloads []pl
+	for l := 0; l <= 125; l++ {
+		payloads = append(payloads, pl{ref.OpPing, payloadOf(l, 0x42)})
+	}
+	payloads = append(payloads, pl{ref.OpPong, nil}, pl{ref.OpPong, payloadOf(125, 1)},
+		pl{ref.OpClose, nil}, pl{ref.OpClose, []byte{0x07}},
+		pl{ref.OpClose, []byte{0x03, 0xe8}}, pl{ref.OpClose, append([]byte{0x03, 0xe9}, validReason...)},
+		pl{ref.OpClose, append([]byte{0x0f, 0xa0}, bytes.Repeat([]byte("r"), 123)...)},
+		pl{ref.OpClose, []byte{0x03, 0xed}}, pl{ref.OpClose, []byte{0x03, 0xee, 'x'}}, pl{ref.OpClose, []byte{0x00, 0x00}},
+		pl{ref.OpClose, []byte{0x03, 0xf4}}, pl{ref.OpClose, []byte{0x07, 0xd0}},
+		pl{ref.OpClose, append([]byte{0x03, 0xe8}, invalidReason...)},
+		pl{ref.OpClose, append([]byte{0x03, 0xed}, bytes.Repeat([]byte("r"), 123)...)})
+	tl := tally{}
+	n := 0
+	for _, size := range []int{16, 32, 64} {
+		wsutil.DefaultWriteBuffer = size
+		for pi, x := range payloads {
+			if !hx.Mine(pi) {
+				continue
+			}
+			for _, server := range []bool{true, false} {
+				for e := 0; e < numEntries; e++ {
+					c := ctlCase{Op: x.op, Payload: x.p, Server: server, Entry: e, Chunks: chunkPlans[(pi+e)%len(chunkPlans)],
+						EOFWD: (pi+e)&1 == 1, Key: [4]byte{byte(pi), 0x5e, byte(size), byte(e) + 0x70}}
+					n++
+					class, bad := one(c)
+					if bad != "" {
+						hx.Failf(t, map[string]interface{}{"DefaultWriteBuffer": size, "case": c.desc()}, "with wsutil.DefaultWriteBuffer=%d: %s", size, bad)
+						return
+					}
+					tl[class]++
+				}
+			}
+		}
+	}
+	hx.EvalN(n)
+	hx.Part("wsutil.DefaultWriteBuffer in {16, 32, 64}: ping 0..125, pong, valid / invalid / empty / 1-byte closes x side x every entry point", int64(n), true)
+	tl.flush("enum/default-write-buffer/")
+}
+
 // ---------------------------------------------------------------------------
 // random cases
 
